@@ -114,7 +114,7 @@ Ltac go_rw :=
     | rewrite exec_skip | rewrite exec_break | rewrite exec_continue | rewrite exec_panic | rewrite exec_copy
     | rewrite exec_putle | rewrite exec_putbe | rewrite exec_callext ].
 Ltac go_cbn :=
-  cbn [eval eval_list ebind as_int as_bool as_ints of_eres assign assign_all lookup update flookup fupdate
+  cbn [err_wrap err_root ch_pct ch_w ch_sp andb eval eval_list ebind as_int as_bool as_ints of_eres assign assign_all lookup update flookup fupdate
        String.eqb Ascii.eqb Bool.eqb arith compare opt_int ret_values read_lval write_back builtin bind_params plookup
        f_params f_body fst snd rev app].
 Ltac go_step := go_rw; go_cbn.
